@@ -1192,6 +1192,7 @@ fn mode_delegate(j: &mut Judge) {
         // a SECOND client shares the sink (a clone of the queuing sink, or an Arc around the buffered sink) and goes away
         // in the middle of the history: that is neither a flush nor the sink's drop - nothing may be written then
         let mut second: Option<StatsdClient> = None;
+        let mut make_another: Option<Box<dyn FnOnce() -> StatsdClient>> = None;
         let client = if through_queue {
             let q = match qvariant {
                 0 => QueuingMetricSink::from(counting),
@@ -1200,10 +1201,14 @@ fn mode_delegate(j: &mut Judge) {
                 _ => QueuingMetricSink::builder().with_capacity(4096).with_error_handler(|_e| {}).build(counting),
             };
             second = Some(StatsdClient::from_sink("other", q.clone()));
+            let q3 = q.clone();
+            make_another = Some(Box::new(move || StatsdClient::builder("third", q3).with_tag("t", "3").with_error_handler(|_e| {}).build()));
             StatsdClient::from_sink("", q)
         } else {
             let shared = Arc::new(counting);
             second = Some(StatsdClient::from_sink("other", SharedSink(shared.clone())));
+            let s3 = shared.clone();
+            make_another = Some(Box::new(move || StatsdClient::builder("third", SharedSink(s3)).with_tag("t", "3").with_error_handler(|_e| {}).build()));
             StatsdClient::from_sink("", SharedSink(shared))
         };
         let nops = r.range(3, 40) as usize;
@@ -1223,7 +1228,31 @@ fn mode_delegate(j: &mut Judge) {
             true
         };
         let second_goes_at = r.usize_below(nops);
+        // ... and a THIRD client is built over the same sink somewhere in the middle (lines may be buffered then):
+        // constructing a client is no reason to write either
+        let third_comes_at = r.usize_below(nops);
+        let mut third: Option<StatsdClient> = None;
+        let third_sink: Option<Box<dyn FnOnce() -> StatsdClient>> = None;
+        let _ = &third_sink;
         for k in 0..nops {
+            if k == third_comes_at && third.is_none() {
+                if let Some(mk) = make_another.take() {
+                    let res = match panics::guard(mk) {
+                        Ok(c) => {
+                            third = Some(c);
+                            Res::OkUnit
+                        }
+                        Err(p) => Res::Panicked(p),
+                    };
+                    std::thread::sleep(std::time::Duration::from_millis(1));
+                    let mut attempts = Vec::new();
+                    while let Ok(b) = rx.try_recv() {
+                        attempts.push(Attempt { bytes: Some(b), out: AOut::Ok });
+                    }
+                    j.rep.obs("clients_built_over_a_sink_that_is_in_use", 1);
+                    steps.push(Step { op: Op::Query, attempts, res });
+                }
+            }
             if k == second_goes_at {
                 if let Some(c2) = second.take() {
                     let res = match panics::guard(move || drop(c2)) {
@@ -1367,6 +1396,7 @@ fn mode_delegate(j: &mut Judge) {
             }
         }
         drop(second.take());
+        drop(third.take());
         if !hist_ok {
             continue;
         }
